@@ -69,7 +69,7 @@ WARN_SITE = [(re.compile(r"were isolates"), 1), (re.compile(r"Cyclical relations
 
 
 CONTAINERS = {"list": list, "generator": lambda ts: (t for t in ts), "iterator": iter, "tuple": tuple, "frozenset": frozenset,
-              "dict_keys": lambda ts: dict.fromkeys(ts).keys(), "reversed": lambda ts: reversed(list(ts))}
+              "dict_keys": lambda ts: dict.fromkeys(ts).keys(), "reversed": lambda ts: reversed(list(ts)), "mutated_set": set}
 
 
 def real_build(order_idx, via="typeset", container="list"):
@@ -85,7 +85,12 @@ def real_build(order_idx, via="typeset", container="list"):
         try:
             if via == "typeset":
                 order = [st["idx"][t] for t in set(CONTAINERS[container](types))]     # the iteration order the constructor's own set(...) will have
-                ts = VisionsTypeset(CONTAINERS[container](types))      # any iterable of types is accepted by the constructor
+                supplied = CONTAINERS[container](types)      # any iterable of types is accepted by the constructor
+                ts = VisionsTypeset(supplied)
+                if container == "mutated_set":
+                    # the caller goes on using ITS set: the typeset keeps the types it was built from
+                    supplied.clear()
+                    supplied.update(st["types"][:3])
                 rg, bg, root, tys = ts.relation_graph, ts.base_graph, ts.root_node, sorted(st["idx"][t] for t in ts.types)
             else:
                 order = list(order_idx)
